@@ -595,3 +595,109 @@ def _drop_positional(tree, caller, callee, nth_call, pos):
                         return True
                     k += 1
     return False
+
+
+def _tc_regions(ctx, fn):
+    """statement regions of Wallet.transaction_create: (fee preparation, after the inputs up to the change outputs, final fee-rate check)"""
+    body = fn.body
+    prep = [i for i, x in enumerate(body) if isinstance(x, ast.If) and norm(x.test) == 'isinstance(fee, int)']
+    inp = [i for i, x in enumerate(body) if isinstance(x, ast.If) and norm(x.test) == 'input_arr is None' and any(isinstance(y, ast.For) for y in ast.walk(x))]
+    chg = [i for i, x in enumerate(body) if isinstance(x, ast.If) and norm(x.test) == 'transaction.change']
+    fin = [i for i, x in enumerate(body) if isinstance(x, ast.If) and norm(x.test) == 'not transaction.fee_per_kb']
+    lim = [i for i, x in enumerate(body) if isinstance(x, ast.If) and 'fee_max' in norm(x) and 'fee_min' in norm(x) and any(isinstance(y, ast.Raise) for y in ast.walk(x))]
+    if len(prep) != 1 or len(inp) != 1 or not chg or not fin or not lim or not (prep[0] < inp[0] < chg[0] < fin[-1] <= lim[-1]):
+        ctx.undecided('transaction_create: fee statements not found at statement level (prep %s, inputs %s, change %s, rate %s, limits %s)' % (prep, inp, chg, fin, lim))
+    return body[prep[0] - 2:prep[0] + 1], body[inp[0] + 1:chg[0]], body[fin[-1]:lim[-1] + 1]
+
+
+def _tc_run(ctx, it, stmts, st, what):
+    it.frames.append([])
+    end = st
+    try:
+        for x in stmts:
+            end = it.exec_stmt(x, end)
+            if end is None:
+                break
+    except AnalysisError as e:
+        ctx.undecided('transaction_create: %s not evaluable: %s' % (what, str(e)[:110]))
+    it.frames.pop()
+    return end
+
+
+@PROP.obligation('C07.fee-limits-real-rate', canaries=[
+    mut.drop_stmt(W, 'Wallet.transaction_create', 'transaction.fee_per_kb = None', 'the surplus of explicit inputs is checked against the service estimate', nth=1),
+    mut.replace_expr(W, 'Wallet.transaction_create', 'transaction.fee_per_kb > transaction.network.fee_max', 'False', 'no upper fee limit'),
+])
+def fee_limits_real_rate(ctx):
+    """"The fee is inside the network's fee-rate limits": with explicit inputs and no fee, the fee is what the inputs leave over. The
+    statements of transaction_create after the inputs are added (up to the change outputs) and the final fee-rate check are evaluated
+    with an estimate of 33333 per kB from the service, a size of 141 bytes and fee_max 1000000: inputs of 20000000 for a payment of
+    1000000 (19000000 fee, 135 million per kB) are REFUSED; inputs of 1010000 (10000 fee, 70921 per kB) pass and the rate that is
+    checked and reported is the real one."""
+    q = W + ':Wallet.transaction_create'
+    fn = ctx.repo.func(q)
+    _, mid, fin = _tc_regions(ctx, fn)
+    T = ('var', 'transaction')
+    NET = ('attr', T, 'network')
+    n = 0
+    for tin, tout, want in ((20000000, 1000000, 'raise'), (1010000, 1000000, 'ok'), (1000100, 1000000, 'raise')):
+        hooks = {'.estimate_size': lambda it, b, a, kw, st, node: 141, '.signature_hash': lambda it, b, a, kw, st, node: S(('var', 'sighash'), 'bytes')}
+        it = Interp(ctx.repo, W, self_cls='wallets:Wallet', hooks=hooks)
+        st = State(env={'self': S(('var', 'self')), 'transaction': S(T), 'fee': None, 'fee_named': False, 'input_arr': [S(('var', 'inp'))], 'amount_total_input': tin, 'amount_total_output': tout,
+                        'number_of_change_outputs': 1, 'srv': S(('var', 'srv'))})
+        for k, v in (('fee', None), ('change', 0), ('size', 141), ('vsize', 141), ('fee_per_kb', 33333)):
+            st.heap[('attr', T, k)] = v
+        for k, v in (('dust_amount', 546), ('fee_min', 1000), ('fee_max', 1000000)):
+            st.heap[('attr', NET, k)] = v
+        end = _tc_run(ctx, it, mid, st, 'fee statements after the inputs (inputs %d, outputs %d)' % (tin, tout))
+        if end is not None and end.heap.get(('attr', T, 'change')) not in (0, None):
+            ctx.undecided('transaction_create: scenario with explicit inputs and no fee leaves a change of %s' % show(term(end.heap.get(('attr', T, 'change')))))
+        if end is not None:
+            end = _tc_run(ctx, it, fin, end, 'final fee-rate check')
+        n += 1
+        fee_ = None if end is None else end.heap.get(('attr', T, 'fee'))
+        rate = None if end is None else end.heap.get(('attr', T, 'fee_per_kb'))
+        ctx.saw('explicit inputs %d, outputs %d, no fee, estimate 33333/kB -> %s' % (tin, tout, 'refused' if end is None else 'accepted with fee %s at %s per kB' % (fee_, rate)))
+        if want == 'raise':
+            ctx.require(end is None, q, 'explicit inputs of %d for outputs of %d give a fee of %s (%d per kB at 141 bytes, limits 1000 .. 1000000) and the transaction is accepted with fee_per_kb %s' % (
+                tin, tout, fee_, (tin - tout) * 1000 // 141, rate), fin[-1],
+                'transaction_create([(addr, 1000000)], input_arr=[(txid_of_a_20000000_output, 0)]) returns a transaction that pays 19000000 in fees: the limit check compares the estimate of the service, not the rate of the transaction')
+        else:
+            ctx.require(end is not None and fee_ == tin - tout and rate == int((tin - tout) * 1000.0 / 141), q,
+                        'explicit inputs of %d for outputs of %d: %s' % (tin, tout, 'refused' if end is None else 'fee %s, reported rate %s (real rate %d)' % (fee_, rate, int((tin - tout) * 1000.0 / 141))), fin[-1])
+    ctx.floor(n, 3, 'explicit-input scenarios')
+
+
+@PROP.obligation('C07.named-fee-explicit', canaries=[
+    mut.replace_expr(W, 'Wallet.transaction_create', 'fee_named and input_arr', 'False', 'a named fee with explicit inputs stays at the placeholder 0'),
+])
+def named_fee_explicit(ctx):
+    """fee='low' / 'normal' / 'high' asks for the service estimate times the size of the transaction. The fee preparation and the
+    statements after the inputs are evaluated for a named fee WITH explicit inputs (estimate 4000 per kB, size 141) and without: the fee
+    stored in the transaction is int(141 / 1000 * 4000) = 564 in both cases, never the placeholder 0 the preparation uses while the
+    size is unknown (a zero-fee transaction whose stale fee_per_kb passes the fee_min check)."""
+    q = W + ':Wallet.transaction_create'
+    fn = ctx.repo.func(q)
+    prep, mid, _ = _tc_regions(ctx, fn)
+    T = ('var', 'transaction')
+    NET = ('attr', T, 'network')
+    n = 0
+    for explicit in (True, False):
+        hooks = {'.estimate_size': lambda it, b, a, kw, st, node: 141, '.estimatefee': lambda it, b, a, kw, st, node: 4000}
+        it = Interp(ctx.repo, W, self_cls='wallets:Wallet', hooks=hooks)
+        st = State(env={'self': S(('var', 'self')), 'transaction': S(T), 'fee': 'low', 'input_arr': [S(('var', 'inp'))] if explicit else None, 'amount_total_input': 2000000, 'amount_total_output': 1000000,
+                        'number_of_change_outputs': 1, 'srv': S(('var', 'srv'))})
+        for k, v in (('fee', None), ('change', 0), ('size', 141), ('vsize', 141), ('fee_per_kb', None)):
+            st.heap[('attr', T, k)] = v
+        for k, v in (('dust_amount', 546), ('fee_min', 1000), ('fee_max', 1000000)):
+            st.heap[('attr', NET, k)] = v
+        end = _tc_run(ctx, it, prep, st, 'fee preparation for a named fee')
+        if end is None:
+            ctx.undecided('transaction_create: fee preparation raises for a named fee')
+        end = _tc_run(ctx, it, mid, end, 'fee statements after the inputs (named fee)')
+        n += 1
+        fee_ = None if end is None else end.heap.get(('attr', T, 'fee'))
+        ctx.saw("fee='low', %s inputs, estimate 4000/kB, 141 bytes -> %s" % ('explicit' if explicit else 'selected', 'refused' if end is None else 'fee %s' % (fee_,)))
+        ctx.require(end is not None and fee_ == 564, q, "fee='low' with %s inputs gives a fee of %s, expected int(141 / 1000 * 4000) = 564" % ('explicit' if explicit else 'selected', 'a refusal' if end is None else fee_), mid[0],
+                    "transaction_create(outputs, input_arr=[...], fee='low') returns a transaction that pays no fee at all")
+    ctx.floor(n, 2, 'named-fee scenarios')
